@@ -103,9 +103,31 @@ class Fn:
 
 
 def short_path(p):
-    """Readable, stable short name: drop crate/module prefixes and generic parameter lists."""
-    p = re.sub(r"::<[^<>]*(?:<[^<>]*>[^<>]*)*>", "", p)
-    return p
+    """Stable short form of a def path: generic parameter lists `::<..>` are dropped (so a function has
+    the same name at its definition and at its call sites); `<impl ..>` segments are kept."""
+    if "::<" not in p:
+        return p
+    out = []
+    i = 0
+    n = len(p)
+    while i < n:
+        if p.startswith("::<", i) and not p.startswith("::<impl ", i):
+            depth = 0
+            j = i + 2
+            while j < n:
+                c = p[j]
+                if c == "<":
+                    depth += 1
+                elif c == ">" and p[j - 1] != "-":
+                    depth -= 1
+                    if depth == 0:
+                        break
+                j += 1
+            i = j + 1
+            continue
+        out.append(p[i])
+        i += 1
+    return "".join(out)
 
 
 class Facts:
